@@ -46,6 +46,10 @@ class SymSeq:
     def _concrete_len(self):
         return isinstance(self.length, int)
 
+    def _reversed(self):
+        n = self.length
+        return SymSeq(n, lambda k: self.at(mk_int(zint(n) - 1 - zint(k))), 'gen')
+
     def _enumerate(self, start=0):
         return SymSeq(self.length, lambda k: (k + start, self.at(k)), 'gen')
 
